@@ -50,19 +50,19 @@ def splittable_variants(Y):
     return out
 
 
-def rule_c(R, ctx):
+def rule_c(R, ctx, rid="C13.c"):
     Y = ctx.yrs
     fn = Y.fn("yrs::block::ItemContent::encode_slice")
     v = FnView(fn)
-    R.rule("C13.c", "R-PROV every splittable arm of ItemContent::encode_slice honours both bounds on every path: for the content kinds "
+    R.rule(rid, "R-PROV every splittable arm of ItemContent::encode_slice honours both bounds on every path: for the content kinds "
                     "ItemContent::splice can split (derived from splice itself), every value handed to the encoder depends on `end`, "
                     "and depends on `start` unless that path is taken only when start == 0")
     split = splittable_variants(Y)
-    R.ob("C13.c", "yrs::block::ItemContent::splice", "splittable-kinds", split >= {"Any", "String", "JSON", "Deleted"},
+    R.ob(rid, "yrs::block::ItemContent::splice", "splittable-kinds", split >= {"Any", "String", "JSON", "Deleted"},
          "content kinds splice() can split: %s" % sorted(split))
     START, END = 3, 4  # MIR locals of the parameters (self, encoder, start, end)
     names = (fn.local_name(START), fn.local_name(END))
-    R.ob("C13.c", fn, "params", fn.argc() == 4, "encode_slice(self, encoder, %s, %s)" % names, nontrivial=False)
+    R.ob(rid, fn, "params", fn.argc() == 4, "encode_slice(self, encoder, %s, %s)" % names, nontrivial=False)
 
     def mentions(t, local):
         return any(x[0] == "param" and x[1] == local for x in walk(t))
@@ -92,8 +92,8 @@ def rule_c(R, ctx):
                                        l.polarity is (l.term[1] == "Eq")) for bb in bbs)
                     if not zero:
                         bad.append("an alternative ignores `start` on a path not restricted to start == 0: %s" % sshow(at, 6))
-            R.ob("C13.c", fn, site + "#arg%d" % k, not bad, "; ".join(bad) if bad else "written value = %s" % sshow(t, 6), cs.loc())
-    R.floor("C13.c", "encoder writes in splittable arms of encode_slice", n, 6)
+            R.ob(rid, fn, site + "#arg%d" % k, not bad, "; ".join(bad) if bad else "written value = %s" % sshow(t, 6), cs.loc())
+    R.floor(rid, "encoder writes in splittable arms of encode_slice", n, 6)
     # units: slice bounds are clocks, and the clock unit of string content is the UTF-16 code unit
     for cs in fn.calls_to(*WRITE_CALLS):
         g = v.guards(cs.bb)
@@ -112,7 +112,7 @@ def rule_c(R, ctx):
                             cuts[nm] = True
                         else:
                             other.append("%s cut in %s" % (nm, sshow(kind)))
-        R.ob("C13.c", fn, "String:units", cuts["start"] and cuts["end"] and not other,
+        R.ob(rid, fn, "String:units", cuts["start"] and cuts["end"] and not other,
              "both bounds of a string slice are applied with split_str(.., OffsetKind::Utf16)" if cuts["start"] and cuts["end"] and not other else
              "a bound of the string slice is not applied in UTF-16 code units (the clock unit): start via split_str/Utf16=%s, end via "
              "split_str/Utf16=%s %s — text with surrogate pairs is cut at the wrong place" % (cuts["start"], cuts["end"], other), cs.loc())
@@ -176,4 +176,9 @@ def check(ctx, R):
         R.ob("C13.f", fn, "parts", all(term_has_call(x, "re:get_state_vector$") and term_has_call(x, "re:from_store$") for x in d),
              "built from get_state_vector and from_store")
     R.run("C13.f", _answers, ctx)
+    from . import c04 as _c04
+    R.run("C13.g", lambda R, c: _c04.rule_e(R, c, "C13.g"), ctx)
+    from . import c16 as _c16, c05 as _c05
+    R.run("C13.h", lambda R, c: _c16.rule_e(R, c, "C13.h"), ctx)
+    R.run("C13.i", lambda R, c: _c05.rule_e(R, c, "C13.i"), ctx)
     return {}
